@@ -136,6 +136,26 @@ def gate2(ctx, rule="GATE-2"):
                               key="%s|%s|missing|%s" % (rule, name, what))
 
 
+def _rev_count(prog, c, op):
+    """number of Iterator::rev adaptors in the chain that produces the iterator operand `op` inside function c"""
+    S = Sym(prog, c)
+    v, n, hops = S.val(op), 0, 0
+    calls_by_block = {b: t for b, t in c.calls()}
+    while hops < 8:
+        hops += 1
+        n += len(re.findall(r"Iterator::rev\(", v))
+        m = re.fullmatch(r"&?call@(\d+):(.*)", v)
+        if not m:
+            break
+        if m.group(2).endswith("Iterator::rev"):
+            n += 1
+        t = calls_by_block.get(int(m.group(1)))
+        if t is None or not t["args"]:
+            break
+        v = S.val(t["args"][0])
+    return n
+
+
 def info_key(ctx, rule="INFO-KEY"):
     prog = ctx.prog
     ctx.rule(rule, "a function that creates cells (ValueRef::create) and hands rows to Table::write_rows must consult the key definition "
@@ -185,9 +205,9 @@ def info_key(ctx, rule="INFO-KEY"):
                           "the duplicate-key test of %s is guarded by Iterator::%s over the assignments: an update that assigns a key column together with a non-key column "
                           "skips the test and the re-sort" % (short(f.name), guard), f.loc(), fn=f.name, key="%s|%s|any-key" % (rule, short(f.name)))
                 # (b) the predicted key uses the LAST assignment to a column, as the apply loop (forward, later stores win) does
-                searches = [(c, cname(prog, t)) for c in unit for bb, t in c.calls()
+                searches = [(c, cname(prog, t), _rev_count(prog, c, t["args"][0])) for c in unit for bb, t in c.calls()
                             if re.search(r"Iterator>?::(find|position|find_map)$|::(rfind|rposition)$", cname(prog, t)) and "(std::string::String, internal::value::Value)" in (t.get("written") or "")]
-                from_end = [x for x in searches if "Rev<" in x[1] or x[1].endswith(("rfind", "rposition"))]
+                from_end = [x for x in searches if (x[2] % 2 == 1) != x[1].endswith(("rfind", "rposition"))]
                 # the assignment looked up is the one for THIS key column: index_for_column_name(name) == Some(index)
                 cmpc = [(c, cname(prog, t)) for c in unit for bb, t in c.calls() if re.search(r"PartialEq(<[^>]*>)?>?::(eq|ne)$", cname(prog, t)) and
                         any("index_for_column_name" in Sym(prog, c).val(a) for a in t["args"])]
@@ -204,6 +224,54 @@ def info_key(ctx, rule="INFO-KEY"):
         ctx.check(ok, rule, short(f.name), how, "%s creates cells and rewrites the table without consulting the primary key definition: assignments to key columns can "
                   "produce duplicate or out-of-order keys" % short(f.name), f.loc(), fn=f.name, key="%s|%s" % (rule, short(f.name)))
     ctx.floor(rule, "functions that create cells and write rows", n, 2)
+
+
+_REORDER = re.compile(r"Iterator>?::(rev|skip|step_by|take|filter|skip_while|take_while|chain|cycle)\b|<impl \[T\]>::(reverse|rchunks|split_at)\b")
+
+
+def upd_align(ctx, rule="UPD-ALIGN"):
+    """Update::exec pairs every stored row with ITS OWN selection flag and sorts by the key columns in declaration order"""
+    prog = ctx.prog
+    from ..lib import unit_calls
+    ctx.rule(rule, "in Update::exec the selection flags are computed by one pass over the stored rows in order, every Iterator::zip pairs the rows with those flags position by "
+                   "position (no reversing, skipping or filtering adaptor on either side), and the key by which the rows are re-sorted lists the key columns in "
+                   "primary_key_indices order")
+    f = prog.fn(Q + "Update::exec")
+    S = Sym(prog, f)
+    uc = unit_calls(prog, f, S)
+    zips = [(b, args) for b, n, args, t, L in uc if n.endswith("Iterator::zip") and L is None]
+    bad = []
+    for b, args in zips:
+        for a in args[:2]:
+            v = a
+            seen = 0
+            # follow `call@N:` references of adaptor results back to their receivers
+            while seen < 6:
+                seen += 1
+                m = _REORDER.search(v)
+                if m:
+                    bad.append(m.group(0))
+                    break
+                mm = re.fullmatch(r"&?call@(\d+):.*", v)
+                if not mm:
+                    break
+                src = [args2 for b2, n2, args2, t2, L2 in uc if b2 == int(mm.group(1)) and L2 is None]
+                if not src or not src[0]:
+                    break
+                v = src[0][0]
+    ctx.check(not bad, rule, "rows and selection flags are paired position by position", "%d zip sites" % len(zips),
+              "Update::exec zips the rows with their selection flags through %s: a row is paired with another row's flag, so the wrong rows are updated / checked" % sorted(set(bad)),
+              f.loc(), fn=f.name, key=rule + "|zip")
+    # the selection flags: collect(map(iter(rows), ..)) with nothing in between
+    maps = [(b, args) for b, n, args, t, L in uc if n.endswith("Iterator::map") and L is None and "condition" in (args[1] if len(args) > 1 else "")]
+    badm = [m.group(0) for b, args in maps for m in [_REORDER.search(args[0])] if m]
+    ctx.check(not badm, rule, "selection flags are computed over the rows in order", "%d map sites" % len(maps),
+              "Update::exec computes the selection flags over %s of the rows: flag i no longer belongs to row i" % sorted(set(badm)), f.loc(), fn=f.name, key=rule + "|selected")
+    # the sort key
+    srt = [(b, L) for b, n, args, t, L in uc if L is not None and any(nn.endswith(("sort_by_cached_key", "sort_by_key")) for bb, nn, aa, tt, LL in uc if bb == b and LL is None)]
+    inner = [n for b, n, args, t, L in uc if L is not None and any(b == sb for sb, sl in srt) and _REORDER.search(n)]
+    ctx.check(not inner, rule, "sort key lists the key columns in order", "", "the key Update::exec sorts by is built through %s: with a multi-column key the rows are ordered by a "
+              "different column order than the one Insert and the reader use" % sorted(set(x.rsplit("::", 1)[-1] for x in inner)), f.loc(), fn=f.name, key=rule + "|sort-key")
 
 
 def ord1(ctx, rule="ORD-1"):
